@@ -4,7 +4,10 @@ package main
 // Each runs on every check of the properties it concerns: a `known` finding must still
 // reproduce (KNOWN-FINDING line), a `fixed` one must not (VIOLATION if it returns).
 
-import "fmt"
+import (
+	"fmt"
+	"strings"
+)
 
 func (h *hist) l0IDs() []uint64 {
 	var ids []uint64
@@ -134,6 +137,60 @@ func scenarioF33(c *Ctx) (*hist, bool, error) {
 	return h, h.c.nFail > nf, nil
 }
 
+// pick-tables: a level >= 1 with several small tables; an iterator with Prefix and SinceTs makes
+// IteratorOptions.pickTables filter that level (older tables dropped by SinceTs, newer kept);
+// plain reads of the same level afterwards must still see every table. Not tied to a finding.
+func scenarioPickTables(c *Ctx) (*hist, bool, error) {
+	h, err := newHist(c, sysOpts{NKeep: 100, MaxLevels: 4, VThreshold: 1 << 10, TableSize: 256, BaseLevelSize: 8 << 10})
+	if err != nil {
+		return nil, false, err
+	}
+	defer h.close()
+	val := func(i, g int) []byte {
+		return []byte(fmt.Sprintf("value-%02d-gen%d-%s", i, g, strings.Repeat("x", 30)))
+	}
+	t := 0
+	write := func(from, to, g int) {
+		h.begin(t, true, 0)
+		for i := from; i < to; i++ {
+			h.modify(t, []byte(fmt.Sprintf("p%02d", i)), val(i, g), 0, 0, 0)
+		}
+		h.commit(t, 0)
+		t++
+	}
+	write(0, 24, 0)
+	if err := h.flush(); err != nil {
+		return h, false, err
+	}
+	if ok, err := h.compact(0, false, nil); err != nil || !ok {
+		return h, false, fmt.Errorf("pick-tables scenario: compaction 1 did not run (%v)", err)
+	}
+	since := h.db.VerifNextTs() - 1 // every version so far is hidden by SinceTs
+	write(12, 24, 1)
+	write(18, 24, 2)
+	if err := h.flush(); err != nil {
+		return h, false, err
+	}
+	if ok, err := h.compact(0, false, nil); err != nil || !ok {
+		return h, false, fmt.Errorf("pick-tables scenario: compaction 2 did not run (%v)", err)
+	}
+	h.dump()
+	nf := h.c.nFail
+	h.begin(t, false, 0)
+	for _, pre := range []string{"p", "p1", "p0", "p2"} {
+		h.iterate(t, itOpts{Prefix: []byte(pre), Since: since}, nil)
+		h.iterate(t, itOpts{Prefix: []byte(pre), Since: since + 1, Prefetch: true, PrefetchSize: 2}, nil)
+		h.iterate(t, itOpts{Prefix: []byte(pre)}, nil)
+		h.iterate(t, itOpts{}, nil)
+	}
+	for i := 0; i < 24; i += 3 {
+		h.get(t, []byte(fmt.Sprintf("p%02d", i)))
+	}
+	h.iterate(t, itOpts{Reverse: true}, nil)
+	h.discard(t)
+	return h, h.c.nFail > nf, nil
+}
+
 type scenario struct {
 	id  string
 	run func(c *Ctx) (*hist, bool, error)
@@ -144,7 +201,7 @@ var scenarios = map[string][]scenario{
 	"C27": {{"F3", scenarioF3}},
 	"C36": {{"F3", scenarioF3}, {"F10", scenarioF10}},
 	"C01": {{"F1", scenarioF1}},
-	"C05": {{"F33", scenarioF33}},
+	"C05": {{"F33", scenarioF33}, {"pick-tables", scenarioPickTables}},
 }
 
 // runScenarios executes the witnesses for a property first (corpus), as correspondence cases
